@@ -117,7 +117,7 @@ EXPECTED_CLAUSES = ["Inotify.__init__.raises[nothing leaked", "Inotify.__init__.
 CANARIES = [
     {"name": "_is_reading starts True (the repaired defect)", "file": FILE, "fn": "Inotify.__init__", "find": "        self._is_reading = False\n", "replace": "        self._is_reading = True\n"},
     {"name": "call _close_resources() in both arms of close()", "file": FILE, "fn": "Inotify.close", "find": "                    os.write(self._kill_w, b\"!\")\n", "replace": "                    os.write(self._kill_w, b\"!\")\n                    self._close_resources()\n"},
-    {"name": "skip the `if self._closed` re-check after the read", "file": FILE, "fn": "Inotify.read_events", "find": "                    self._is_reading = False\n                    if self._closed:\n                        self._close_resources()\n                        return []\n", "replace": "                    self._is_reading = False\n"},
+    {"name": "skip the `if self._closed` re-check after the read", "file": FILE, "fn": "Inotify.read_events", "find": "                    self._is_reading = False\n\n                    if self._closed:\n                        self._close_resources()\n                        return []\n", "replace": "                    self._is_reading = False\n"},
     {"name": "constructor does not release on failure (the repaired defect)", "file": FILE, "fn": "Inotify.__init__", "find": "        except Exception:\n            self._close_resources()\n            raise\n", "replace": "        except Exception:\n            raise\n"},
 ]
 TRUSTED = ["E7 threading.Lock; Thread.join returns when the thread is dead", "E8: inotify_init returns a fresh open descriptor or -1; os.pipe returns two fresh descriptors (its own failure is not injected); poll/os.read on open descriptors do not raise",
